@@ -30,8 +30,9 @@ axiom('arraylike.kinds', forall([_x], z3.And(z3.Not(z3.And(is_list(_x), is_ndarr
                                             z3.Not(z3.And(is_list(_x), is_dataframe(_x))),
                                             z3.Not(z3.And(is_ndarray(_x), is_series(_x))),
                                             z3.Not(z3.And(is_ndarray(_x), is_dataframe(_x))),
-                                            z3.Not(z3.And(is_series(_x), is_dataframe(_x)))), [is_list(_x)]),
-      ['al_is_list'], 'numpy')
+                                            z3.Not(z3.And(is_series(_x), is_dataframe(_x)))),
+                                 [is_list(_x), is_ndarray(_x), is_series(_x), is_dataframe(_x)]),
+      ['al_is_list', 'al_is_ndarray', 'al_is_series', 'al_is_dataframe'], 'numpy')
 axiom('arraylike.len', forall([_x], olen(_x) >= 0, [olen(_x)]), ['al_len'], 'numpy')
 axiom('arraylike.len.arms', forall([_x], T.alen(as_aseq(_x)) == olen(_x), [as_aseq(_x)]), ['al_arms'], 'numpy')
 axiom('arraylike.len.reals', forall([_x], T.rlen(as_rseq(_x)) == olen(_x), [as_rseq(_x)]), ['al_reals'], 'numpy')
